@@ -11,6 +11,7 @@
 import YalafiVerif.Model.Tex2txt
 import YalafiVerif.Proofs.Inv.Tex2txt
 import YalafiVerif.Generated.WF
+import YalafiVerif.Proofs.PlainUnknown
 namespace Yalafi
 
 /-- what `addUnknown` does to the state -/
@@ -66,5 +67,30 @@ theorem C19_tex2txt_nodup (T : PTables) (hw : T.WFInv) (fuel : Nat) (latex : Str
 theorem C19_tex2txt_nodup_current (fuel : Nat) (latex : Str) (o : Options) (multi : Bool) (thresh : Nat) (fs : FS)
     (r : T2TResult) (h : tex2txt Generated.theTables fuel latex o multi thresh fs = .ok r) : r.unknowns.Nodup :=
   tex2txt_unknowns_nodup Generated.theTables Generated.wfInv fuel latex o multi thresh fs r h
+
+/-- **completeness and exactness of the unknowns list, end to end**, on documents made of inert
+    text and undeclared control words (`Seg`, `render`; the decidable side conditions `SegsOk` say
+    that each `\\name` really is one macro token of the scanner — not `\\begin`, `\\end`, `\\item`,
+    `\\verb`, `\\def`, an accent, a special sequence, not followed by a letter — and is not declared
+    in the initialised parser `st1`): the list holds exactly the control words of the document,
+    each once, in order of first use; no diagnostics are added; with `--unkn` the output is the
+    list, one name per line; otherwise the output text is a subsequence of the text segments
+    whose non-blank characters carry exactly their source positions. -/
+theorem C19_unknowns_complete (T : PTables) (o : Options) (fs : FS) (thresh : Nat)
+    (segs : List Seg) (fuel : Nat) (st1 : PState)
+    (hdefs : o.defs = []) (hextr : o.extr = []) (hrepl : o.hasRepl = false)
+    (hinit : initParser T fuel o (initialState T o false fs) = .ok ((), st1))
+    (hok : SegsOk T st1 segs) (hf : (render segs).length + 2 ≤ fuel) :
+    ∃ r, tex2txt T fuel (render segs) o false thresh fs = .ok r ∧
+      r.unknowns = (controlWords segs).eraseDups ∧
+      r.diags = st1.diags ∧
+      (o.unkn = true → r.txt = strJoin [nl] (controlWords segs).eraseDups ++ [nl]) ∧
+      (o.unkn = false →
+        List.Sublist r.txt (textOf segs) ∧
+        nonBlankPairs (r.txt, r.pos)
+          = ((textSegs 0 segs).filter (fun cp => !isSpace cp.1)).map (fun cp => (cp.1, cp.2 + 1))) := by
+  obtain ⟨r, h1, h2, h3, _, h5, h6⟩ :=
+    tex2txt_unknowns_complete T o fs thresh segs fuel st1 hdefs hextr hrepl hinit hok hf
+  exact ⟨r, h1, h2, h3, h5, fun hu => ⟨(h6 hu).2.2.1, (h6 hu).2.2.2⟩⟩
 
 end Yalafi
